@@ -3,7 +3,15 @@
 Every node of a document family as clone / export_leaf root x all flag combinations, the lists
 handed out by `values` and passed in as `values`, TemplateHandler.clone_section; followed by
 every edit sequence of length <=1 (all copy points) and <=2 (quick: selected copy points;
-thorough: 3) applied to the copy with the original watched, and symmetrically."""
+thorough: 3) applied to the copy with the original watched, and symmetrically.
+
+Document family: `main` (every kind of node, cardinalities, repositories, unnamed objects, one resolved
+link), `dtypes` (one Property per data type family and per spelling of the type name the library
+accepts - the type name is stored as given) and `links` (resolved links that took over definition and
+reference from a target with children). At the copy points of `links` whose copy carries link state the
+edits go to BOTH sides in every interleaving (clean / resolve / unlink / finalize, edits of the link
+target): each side must end up like its *twin* - same document, same copy made, same own edits, the
+other side never touched."""
 import itertools
 import os
 
@@ -42,6 +50,52 @@ def build_doc():
     return doc
 
 
+def build_dtypes_doc():
+    """One Property per data type family and per accepted spelling of its name (stored as given)."""
+    import odml
+    doc = odml.Document(author="me")
+    sec = odml.Section(name="S", type="t", parent=doc)
+    for i, (dtype, values) in enumerate(DTYPE_MEMBERS):
+        odml.Property(name="p%02d" % i, values=list(values), dtype=dtype, parent=sec)
+    return doc
+
+
+DTYPE_MEMBERS = [
+    ("int", [1, 2]), ("INT", [1, 2]), ("float", [0.5]), ("string", ["x", "y"]), ("String", ["x"]),
+    ("text", ["a\nb"]), ("boolean", [True, False]), ("date", ["2020-01-02"]), ("Date", ["2020-01-02"]),
+    ("time", ["10:11:12"]), ("datetime", ["2020-01-02 10:11:12"]), ("url", ["http://example.org/x"]),
+    ("person", ["me"]),
+    ("2-tuple", ["(1;2)", "(3;4)"]), ("2-Tuple", ["(1;2)", "(3;4)"]), ("2-TUPLE", ["(1;2)"]),
+    ("3-tuple", ["(1;2;3)"]), ("3-Tuple", ["(1;2;3)", "(4;5;6)"]),
+]
+
+
+def build_links_doc():
+    """Resolved links: L took over definition and reference from T, M (own definition) only the
+    reference; T has a Property and a child Section with a Property, L an own Property."""
+    import odml
+    doc = odml.Document(author="me")
+    t = odml.Section(name="T", type="t", parent=doc, definition="defT", reference="refT")
+    odml.Property(name="tp", values=[1, 2], parent=t)
+    tc = odml.Section(name="TC", type="t", parent=t)
+    odml.Property(name="tcp", values=["x"], parent=tc)
+    lnk = odml.Section(name="L", type="t", parent=doc)
+    odml.Property(name="lp", values=["own"], parent=lnk)
+    lnk._link = "/T"
+    m = odml.Section(name="M", type="t", parent=doc, definition="defM")
+    m._link = "/T"
+    doc.finalize()
+    return doc
+
+
+DOCS = {"main": build_doc, "dtypes": build_dtypes_doc, "links": build_links_doc}
+DOC_ORDER = ["main", "dtypes", "links"]
+
+
+def build(name):
+    return DOCS[name or "main"]()
+
+
 def nodes(root):
     """BFS list of all objects below (and including) root."""
     out, todo = [], [root]
@@ -60,8 +114,8 @@ def node_tag(o):
 
 # --------------------------------------------------------------------------- copy points
 
-def copy_points():
-    doc = build_doc()
+def copy_points(docname="main"):
+    doc = build(docname)
     pts = []
     for i, o in enumerate(nodes(doc)):
         k = node_tag(o)
@@ -77,8 +131,9 @@ def copy_points():
                     pts.append(["clone", i, ch, keep])
         if k != "document":
             pts.append(["export_leaf", i])
-    pts.append(["template-clone", None, True, False])
-    pts.append(["template-clone", None, False, True])
+    if docname == "main":
+        pts.append(["template-clone", None, True, False])
+        pts.append(["template-clone", None, False, True])
     return pts
 
 
@@ -215,9 +270,13 @@ def make_copy(doc, pt, scratch):
 
 SEC_EDITS = ["rename", "retype", "definition", "add-section", "add-property", "remove-first-section",
              "remove-first-property", "reorder-last-section", "sec_cardinality", "prop_cardinality",
-             "merge-into", "clean", "repository", "reference", "new_id"]
+             "merge-into", "clean", "repository", "reference", "new_id", "resolve", "unlink"]
 PROP_EDITS = ["append", "insert0", "setitem0", "remove-first", "values", "nested-mutation", "rename", "unit",
-              "uncertainty", "dtype-string", "val_cardinality", "value_origin", "getitem-mutation", "new_id"]
+              "uncertainty", "dtype-string", "val_cardinality", "value_origin", "getitem-mutation", "new_id",
+              "returned-list-mutation", "nested-append"]
+# edits of a list handed out by `values` (outer list, inner lists): the Property that handed it out - original
+# or copy - must not change
+RETURNED_LIST_EDITS = ("nested-mutation", "returned-list-mutation", "nested-append")
 DOC_EDITS = ["author", "add-section", "remove-first-section", "date", "clean", "finalize", "new_id"]
 LIST_EDITS = ["list-append", "list-setitem0", "list-nested-setitem", "list-clear", "list-nested-append"]
 
@@ -260,6 +319,19 @@ def apply_edit(root, idx, edit):
                 got[0][0] = "mutated"
                 # a list returned by values was edited; the Property itself must not change
                 return "returned-list"
+            elif edit == "nested-append":
+                got = o.values
+                if not got or not isinstance(got[-1], list):
+                    return False
+                got[-1].append("extra")
+                got[-1].reverse()
+                return "returned-list"
+            elif edit == "returned-list-mutation":
+                got = o.values
+                got.append(got[0] if got else 1)
+                got[0] = got[-1] if len(got) > 2 else ("zz" if not isinstance(got[0], list) else ["9", "9"])
+                del got[-1]
+                return "returned-list"
             elif edit == "getitem-mutation":
                 if not v or not isinstance(v[0], list):
                     return False
@@ -271,7 +343,7 @@ def apply_edit(root, idx, edit):
             elif edit == "uncertainty":
                 o.uncertainty = 9.5
             elif edit == "dtype-string":
-                if o.dtype in ("string", None) or (o.dtype or "").endswith("tuple"):
+                if (o.dtype or "string").lower() == "string" or (o.dtype or "").lower().endswith("tuple"):
                     return False
                 o.dtype = "string"
             elif edit == "val_cardinality":
@@ -326,6 +398,15 @@ def apply_edit(root, idx, edit):
                 o.merge(other, strict=False)
             elif edit == "clean":
                 o.clean()
+            elif edit == "resolve":
+                # the documented high level call: resolves the link / include of this Section (again)
+                if o.link is None and o.include is None:
+                    return False
+                o.merge()
+            elif edit == "unlink":
+                if o.link is None:
+                    return False
+                o.link = None
             elif edit == "finalize":
                 o.finalize()
             elif edit == "new_id":
@@ -364,31 +445,61 @@ DEEP_POINTS = [["clone", 0, True, False], ["clone", 1, True, False], ["clone", 1
                ["export_leaf", 6], ["clone", 5, None, False]]
 
 
+# Two-sided layer (document `links`): the edits that use or change link / merge state, and edits of the
+# link target and of taken-over content
+LINK_EDITS = ["clean", "finalize", "resolve", "unlink", "definition", "reference", "rename", "values",
+              "remove-first-property", "remove-first-section"]
+LINK_EDITS3 = ["clean", "finalize", "resolve", "definition", "values"]
+KIND_EDITS = {"property": PROP_EDITS, "section": SEC_EDITS, "document": DOC_EDITS}
+
+
+def carries_link_state(root):
+    return any(node_tag(o) == "section" and o.is_merged for o in nodes(root))
+
+
 def gen_cases(tier):
     env.install()
-    pts = copy_points()
-    n_nodes = len(nodes(build_doc()))
-    all_edits = sorted(set(SEC_EDITS + PROP_EDITS + DOC_EDITS))
     cases = []
-    for pt in pts:
-        cases.append({"point": pt, "side": "copy", "edits": []})
-        if pt[0].startswith("values"):
-            for e in LIST_EDITS:
-                cases.append({"point": pt, "side": "copy", "edits": [[None, e]]})
-            for e in PROP_EDITS:
-                cases.append({"point": pt, "side": "original", "edits": [[pt[1], e]]})
-            continue
-        scratch = env.fresh_dir("c11g")
-        try:
-            kind, orig, cp, _ = make_copy(build_doc(), pt, scratch)
-        finally:
-            env.drop_dir(scratch)
-        for side, root in (("copy", cp), ("original", orig)):
-            for i, o in enumerate(nodes(root)):
-                k = node_tag(o)
-                for e in {"property": PROP_EDITS, "section": SEC_EDITS, "document": DOC_EDITS}[k]:
-                    cases.append({"point": pt, "side": side, "edits": [[i, e]]})
     depth = 2 if tier == "quick" else 3
+    for docname in DOC_ORDER:
+        tagd = {} if docname == "main" else {"doc": docname}     # cases of `main` keep their recorded form
+        for pt in copy_points(docname):
+            cases.append(dict(tagd, point=pt, side="copy", edits=[]))
+            if pt[0].startswith("values"):
+                for e in LIST_EDITS:
+                    cases.append(dict(tagd, point=pt, side="copy", edits=[[None, e]]))
+                for e in PROP_EDITS:
+                    cases.append(dict(tagd, point=pt, side="original", edits=[[pt[1], e]]))
+                continue
+            scratch = env.fresh_dir("c11g")
+            try:
+                doc = build(docname)
+                kind, orig, cp, _ = make_copy(doc, pt, scratch)
+            finally:
+                env.drop_dir(scratch)
+            for side, root in (("copy", cp), ("original", orig)):
+                for i, o in enumerate(nodes(root)):
+                    for e in KIND_EDITS[node_tag(o)]:
+                        cases.append(dict(tagd, point=pt, side=side, edits=[[i, e]]))
+            if docname != "links" or not carries_link_state(cp):
+                continue
+            # both sides edited, every interleaving that really has both sides in it; the original side is
+            # the whole document (the link target lies outside a cloned linking Section)
+            alpha = {}
+            for side, root, edits in (("copy", cp, LINK_EDITS), ("original", doc, LINK_EDITS)):
+                alpha[side] = [[side, i, e] for i, o in enumerate(nodes(root))
+                               for e in edits if e in KIND_EDITS[node_tag(o)]]
+            for first, second in (("copy", "original"), ("original", "copy")):
+                for x in alpha[first]:
+                    for y in alpha[second]:
+                        cases.append(dict(tagd, point=pt, side="both", edits=[x, y]))
+            if depth >= 3:
+                a3 = {sd: [x for x in alpha[sd] if x[2] in LINK_EDITS3] for sd in alpha}
+                for pattern in itertools.product(("copy", "original"), repeat=3):
+                    if len(set(pattern)) < 2:
+                        continue
+                    for seq in itertools.product(*[a3[sd] for sd in pattern]):
+                        cases.append(dict(tagd, point=pt, side="both", edits=[list(x) for x in seq]))
     idxs = range(0, 8)
     edits2 = ["rename", "add-property", "remove-first-property", "append", "setitem0", "getitem-mutation",
               "merge-into", "clean", "values", "nested-mutation", "remove-first-section", "new_id"]
@@ -414,17 +525,22 @@ def run_case(case):
         env.drop_dir(scratch)
 
 
+NOT_APPLICABLE = {"failures": [], "outcomes": ["edit-not-applicable"], "nontrivial": 0, "execs": 0, "states": 0}
+
+
 def _run_case(case, scratch):
-    doc = build_doc()
+    docname = case.get("doc", "main")
+    doc = build(docname)
     pt = case["point"]
     fails = []
 
     def fail(clause, observed=None, explain=""):
         fails.append(report.failure("copies", {
-            "clause": clause, "copy_point": pt[0],
-            "node": node_tag(nodes(build_doc_cached())[pt[1]]) if pt[1] is not None else "template-section",
+            "clause": clause, "copy_point": pt[0], "doc": docname,
+            "node": node_tag(nodes(build_doc_cached(docname))[pt[1]]) if pt[1] is not None else "template-section",
             "children": pt[2] if len(pt) > 2 else None, "keep_id": pt[3] if len(pt) > 3 else None,
-            "side_edited": case["side"], "edits": [e[1] for e in case["edits"]]}, case,
+            "side_edited": case["side"] if case["side"] != "both" else [e[0] for e in case["edits"]],
+            "edits": [e[-1] for e in case["edits"]]}, case,
             observed=observed, explain=explain))
     try:
         kind, orig, cp, cfails = make_copy(doc, pt, scratch)
@@ -443,7 +559,7 @@ def _run_case(case, scratch):
             for _, e in case["edits"]:
                 r = apply_list_edit(cp, e)
                 if r is False:
-                    return {"failures": [], "outcomes": ["edit-not-applicable"], "nontrivial": 0, "execs": 0, "states": 0}
+                    return dict(NOT_APPLICABLE)
             if snapshot.snap(orig) != watch_before:
                 fail("edit-of-handed-out-or-passed-in-list-changed-the-property",
                      snapshot.short(snapshot.diff(watch_before, snapshot.snap(orig))))
@@ -452,12 +568,14 @@ def _run_case(case, scratch):
             for i, e in case["edits"]:
                 r = apply_edit(orig, 0, e)
                 if r is False or r == "returned-list":
-                    return {"failures": [], "outcomes": ["edit-not-applicable"], "nontrivial": 0, "execs": 0, "states": 0}
+                    return dict(NOT_APPLICABLE)
             if snapshot.atom(cp) != lst_before:
                 fail("edit-of-the-property-changed-the-handed-out-or-passed-in-list",
                      "%r -> %r" % (lst_before, snapshot.atom(cp)))
             applied = int(snapshot.snap(orig) != watch_before)
         return {"failures": fails, "outcomes": ["list-edit"], "nontrivial": applied, "execs": 1}
+    if case["side"] == "both":
+        return _run_two_sided(case, docname, doc, cp, fail, fails)
     edited, watched = (cp, orig) if case["side"] == "copy" else (orig, cp)
     wroot = watched
     if case["side"] == "copy" and pt[0] != "template-clone":
@@ -465,9 +583,15 @@ def _run_case(case, scratch):
     before_w = snapshot.snap(wroot)
     before_e = snapshot.snap(edited)
     for i, e in case["edits"]:
+        own_before = snapshot.snap(edited) if e in RETURNED_LIST_EDITS else None
         r = apply_edit(edited, i, e)
         if r is False:
-            return {"failures": [], "outcomes": ["edit-not-applicable"], "nontrivial": 0, "execs": 0, "states": 0}
+            return dict(NOT_APPLICABLE)
+        if r == "returned-list" and snapshot.snap(edited) != own_before:
+            # the Property that handed the list out is a node of the edited side (a copy as well as an original)
+            fail("edit-of-handed-out-or-passed-in-list-changed-the-property",
+                 snapshot.short(snapshot.diff(own_before, snapshot.snap(edited))),
+                 explain="%r on the %s: a list returned by values was edited, not the Property" % (e, case["side"]))
     after_w = snapshot.snap(wroot)
     if after_w != before_w:
         d = snapshot.diff(before_w, after_w)
@@ -477,13 +601,92 @@ def _run_case(case, scratch):
     return {"failures": fails, "outcomes": ["edited"], "nontrivial": int(snapshot.snap(edited) != before_e), "execs": 1}
 
 
-_DOC_CACHE = []
+# ------------------------------------------------------------------ both sides edited: the twin oracle
+
+_TWINS = {}
 
 
-def build_doc_cached():
-    if not _DOC_CACHE:
-        _DOC_CACHE.append(build_doc())
-    return _DOC_CACHE[0]
+def twin(docname, pt, side, own):
+    """(results, snapshot without ids) of `side` after its own edits alone: same document, same copy made,
+    the other side never touched. A pure function of its arguments (ids are left out), kept per process."""
+    key = snapshot.canon([docname, pt, side, own])
+    if key not in _TWINS:
+        doc = build(docname)
+        _, _, cp, _ = make_copy(doc, pt, None)
+        root = cp if side == "copy" else doc
+        results = [apply_edit(root, i, e) for i, e in own]
+        _TWINS[key] = (results, snapshot.snap(root, ids=False))
+    return _TWINS[key]
+
+
+def foreign_targets(cp, doc):
+    """The Sections of the original document that Sections of the copy hold as merged equivalent."""
+    theirs = set(id(o) for o in nodes(doc))
+    return [o.get_merged_equivalent() for o in nodes(cp)
+            if node_tag(o) == "section" and o.is_merged and id(o.get_merged_equivalent()) in theirs]
+
+
+def targets_state(targets, doc):
+    theirs = set(id(o) for o in nodes(doc))       # a removed target is not among the nodes any more
+    return [[snapshot.snap(t), t.get_path(), id(t) in theirs] for t in targets]
+
+
+def _run_two_sided(case, docname, doc, cp, fail, fails):
+    """case["edits"] = [[side, node index, edit], ...]; the original side is the whole document."""
+    pt = case["point"]
+    roots = {"copy": cp, "original": doc}
+    start = {sd: snapshot.snap(roots[sd]) for sd in roots}
+    cur = dict(start)                     # last snapshot of each side; None once the side has been edited
+    results = {"copy": [], "original": []}
+    targets = foreign_targets(cp, doc)
+    targets_at_copy_time = targets_state(targets, doc)
+    baseline_defect = False
+    for sd, i, e in case["edits"]:
+        other = "original" if sd == "copy" else "copy"
+        # TODO baseline-defect: a cloned linking Section keeps the link target *of the original document* as its
+        # merged equivalent (also below Document.clone, where the copy has a target of its own), so clean /
+        # resolve / unlink / finalize on the copy give another result once that target has been edited. The
+        # twin comparison of the copy is skipped for exactly these cases; drop `targets` when /repo is repaired.
+        if sd == "copy" and targets and targets_state(targets, doc) != targets_at_copy_time:
+            baseline_defect = True
+        before = cur[other] if cur[other] is not None else snapshot.snap(roots[other])
+        r = apply_edit(roots[sd], i, e)
+        if r is False:
+            return dict(NOT_APPLICABLE)
+        results[sd].append(r)
+        cur[sd] = None
+        after = cur[other] = snapshot.snap(roots[other])
+        if after != before:
+            d = snapshot.diff(before, after)
+            fail("edit-of-one-side-changed-the-other", snapshot.short(d),
+                 explain="edit %r on the %s changed the %s at %s" % ([i, e], sd, other, d[0] if d else "?"))
+    for sd in roots:
+        if cur[sd] is None:
+            cur[sd] = snapshot.snap(roots[sd])
+    if not fails:
+        for sd in ("original", "copy"):
+            if sd == "copy" and baseline_defect:
+                continue                  # TODO baseline-defect (see above)
+            own = [[i, e] for s_, i, e in case["edits"] if s_ == sd]
+            # (in the twin every own edit finds its object: the other side's edits are all that differs)
+            t_results, t_snap = twin(docname, pt, sd, own)
+            mine = snapshot.strip(cur[sd])
+            if results[sd] != t_results or mine != t_snap:
+                d = snapshot.diff(t_snap, mine) if mine != t_snap else ("/outcomes", t_results, results[sd])
+                fail("own-edits-have-another-effect-after-the-other-side-was-edited", snapshot.short(d),
+                     explain="the %s went through %r; without the edits of the other side (%r) the same edits "
+                             "leave it different at %s" % (sd, own, case["edits"], d[0] if d else "?"))
+    changed = any(cur[sd] != start[sd] for sd in roots)
+    return {"failures": fails, "outcomes": ["edited-both-sides"], "nontrivial": int(changed), "execs": 1}
+
+
+_DOC_CACHE = {}
+
+
+def build_doc_cached(docname="main"):
+    if docname not in _DOC_CACHE:
+        _DOC_CACHE[docname] = build(docname)
+    return _DOC_CACHE[docname]
 
 
 def check(tier):
